@@ -7,7 +7,7 @@ TB = ("TLC 1.8 + SANY + CommunityModules (Json, IOUtils, SequencesExt); harness 
       "(harness/traced.py, read-only); numpy generator; likelihoods/point sets/seeds are sampled from harness families")
 CHECKS = {
  'C01': dict(cat='model_checking', tech='TLA+ spec (Sampler.tla) model-checked with TLC + trace validation of real runs (SamplerTrace.tla), histories from Driver.tla',
-   text='TLC explores Sampler.tla exhaustively for small constants (every swallowed set, fresh signature, transfer subset, end of exploration) with ShellPartition/InCube as invariants; then every step of traced real runs (configuration matrix x TLC-generated histories) is validated clause by clause, with signatures computed by the real contains() of the bounds alive at that step. Right level: the property is a state invariant over all histories; the model decides the design, the traces bind it to the code at every step rather than at the end of a run.',
+   text='TLC explores Sampler.tla exhaustively for small constants (every swallowed set, fresh signature, transfer subset, end of exploration) with ShellPartition/InCube as invariants; then every step of traced real runs (configuration matrix x histories sampled by TLC from Driver.tla x hand-written boundary scenarios x scripted non-nested geometries sampled by TLC from CellWorld.tla, incl. histories that resume after every batch) is validated clause by clause, with signatures computed by the real contains() of the bounds alive at that step. Right level: the property is a state invariant over all histories; the model decides the design, the traces bind it to the code at every step rather than at the end of a run.',
    ref='DESIGN 4.1, 5/C01'),
  'C02': dict(cat='model_checking', tech='TLA+ spec model-checked with TLC + trace validation with exact integer statistics and float residuals',
    text='Sampler.tla defines the estimators as functions of the stored rows; integer-level likelihoods make per-shell sums exact integers that TLC recomputes in every logged state (StatsFromStored), proposal counts are observed independently of the code (AS_Proposals/AS_Accounted), and log_z, n_eff, eta, shell volumes and posterior weights are compared with the formulas of the spec as residuals bounded by 1e-6.',
@@ -61,7 +61,7 @@ m = dict(version=1,
              baseline_off_cmd=BASE, source_commits=[], add_only=True),
   engines=[dict(name='tlc', path='/verif/harness/tlc.py', serves_properties=sorted(CHECKS), kind_free_text='TLC model checking / simulation / trace validation of spec/*.tla'),
            dict(name='traced-sampler', path='/verif/harness/traced.py', serves_properties=['C01','C02','C03','C10','C12','C11','C05'], kind_free_text='projection of real executions to the abstract state of the specification')],
-  checks=[], notes='See DESIGN.md. KNOWN_FINDINGS.txt lists repaired defects (fix: commits in /repo).',
+  checks=[], notes='See DESIGN.md (section 13 = as built). KNOWN_FINDINGS.txt: seven repaired defects (fix: commits in /repo) and one recorded finding. mutants/ = own mutation patches, seeded/ = 45 changes written by independent sub-agents with meta.json each; ./check selftest = vacuity, binding and mutant matrix.',
   not_applicable=[])
 for pid in sorted(CHECKS):
     c = CHECKS[pid]
